@@ -657,3 +657,634 @@ Proof.
     destruct (proj1 Hr eq_refl) as (f' & Hf' & Hag & Hn).
     rewrite (H f' Hf' Hag) in Hn. discriminate.
 Qed.
+
+(* ---- fol._refine_assignment ------------------------------------------------------------ *)
+Definition bit_of_val (d : vdecl) (v : val) (i : nat) : option bool :=
+  match d, v with
+  | DBool, VB b => if Nat.eqb i 0 then Some b else None
+  | DInt h, VZ z => if (i <? wnat h)%nat then Some (Z.testbit z (Z.of_nat i)) else None
+  | _, _ => None
+  end.
+
+(* the bit-level meaning of a dictionary of values *)
+Definition asg_bits (t : tbl) (m : fasgn) (b : bit) : option bool :=
+  match dict_get String.eqb (fst b) m, tlookup (fst b) t with
+  | Some v, Some d => bit_of_val d v (snd b)
+  | _, _ => None
+  end.
+
+Definition vals_ok (t : tbl) (m : fasgn) : Prop :=
+  NoDup (map fst m) /\
+  forall x v, In (x, v) m -> exists d, tlookup x t = Some d /\ val_in_range d v = true.
+
+Lemma combine_map_r {A B} (f : A -> B) l :
+  combine l (map f l) = map (fun i => (i, f i)) l.
+Proof. induction l; cbn; congruence. Qed.
+
+Lemma int_bits_dict {V} x (g : nat -> V) w b :
+  dict_get bit_eqb b (rev (map (fun i => ((x, i), g i)) (seq 0 w))) =
+  if String.eqb (fst b) x && (snd b <? w)%nat then Some (g (snd b)) else None.
+Proof.
+  set (e := map (fun i => ((x, i), g i)) (seq 0 w)).
+  assert (ND : NoDup (map fst (rev e))).
+  { rewrite map_rev. apply NoDup_rev. unfold e. rewrite map_map. cbn [fst].
+    apply FinFun.Injective_map_NoDup; [|apply seq_NoDup].
+    intros i j E. inversion E; auto. }
+  destruct b as [y i]. cbn [fst snd].
+  destruct (String.eqb_spec y x) as [->|Hn]; cbn [andb].
+  - destruct (Nat.ltb_spec i w).
+    + apply (dict_get_nodup_in bit_eqb bit_eqb_spec); auto.
+      rewrite <- in_rev. unfold e. apply in_map_iff. exists i. split; auto.
+      apply in_seq. lia.
+    + apply (dict_get_none bit_eqb bit_eqb_spec).
+      rewrite map_rev, <- in_rev. unfold e. rewrite map_map. cbn [fst].
+      rewrite in_map_iff. intros (j & E & Hj). inversion E; subst.
+      apply in_seq in Hj. lia.
+  - apply (dict_get_none bit_eqb bit_eqb_spec).
+    rewrite map_rev, <- in_rev. unfold e. rewrite map_map. cbn [fst].
+    rewrite in_map_iff. intros (j & E & Hj). inversion E; subst. congruence.
+Qed.
+
+Lemma refine_assignment_from_spec t : wf_tbl t -> forall m, vals_ok t m ->
+  forall acc, exists r, refine_assignment_from t m acc = Some r /\
+    (NoDup (map fst acc) -> NoDup (map fst r)) /\
+    forall b, dict_get bit_eqb b r =
+              match asg_bits t m b with
+              | Some v => Some v
+              | None => dict_get bit_eqb b acc
+              end.
+Proof.
+  intros Hwf. induction m as [|[x v] m IH]; intros [ND Hok] acc.
+  - exists acc. split; [reflexivity|]. split; auto.
+  - inversion ND as [|? ? Hx ND']; subst.
+    assert (Hok' : vals_ok t m) by (split; auto; intros; apply Hok; right; auto).
+    destruct (Hok x v (or_introl eq_refl)) as (d & Hl & Hr).
+    assert (Hxm : dict_get String.eqb x m = None)
+      by (apply (dict_get_none String.eqb string_eqb_spec'); auto).
+    cbn [refine_assignment_from]. rewrite Hl.
+    destruct d as [|h], v as [bv|z]; cbn in Hr; try discriminate.
+    + destruct (IH Hok' (dict_set bit_eqb (x, 0%nat) bv acc)) as (r & E & NDr & Hg).
+      exists r. split; auto. split.
+      * intro Ha. apply NDr. apply (dict_set_nodup bit_eqb bit_eqb_spec); auto.
+      * intro b. rewrite Hg, (dict_get_set bit_eqb bit_eqb_spec).
+        unfold asg_bits. cbn [dict_get].
+        destruct (String.eqb_spec (fst b) x) as [Ex|Ex].
+        -- rewrite Ex, Hxm, Hl. cbn [bit_of_val].
+           destruct b as [y i]. cbn [fst snd] in *. subst y.
+           destruct (Nat.eqb_spec i 0).
+           ++ subst. rewrite bit_eqb_refl. reflexivity.
+           ++ destruct (bit_eqb_spec (x, i) (x, 0%nat)) as [E0|E0]; [inversion E0; lia|].
+              reflexivity.
+        -- destruct (bit_eqb_spec b (x, 0%nat)) as [E0|E0];
+             [subst b; cbn in Ex; congruence|].
+           reflexivity.
+    + assert (Hw : wf_hint h) by (destruct Hwf as [_ H]; eapply H; apply tlookup_in; eauto).
+      rewrite int_to_bit_assignment_spec by auto.
+      unfold encode_val. rewrite zbits_map, combine_map_r, map_map. cbn [fst snd].
+      set (e := map (fun i => ((x, i), Z.testbit z (Z.of_nat i))) (seq 0 (wnat h))).
+      destruct (IH Hok' (dict_update bit_eqb acc e)) as (r & E & NDr & Hg).
+      exists r. split; auto. split.
+      * intro Ha. apply NDr. apply (dict_update_nodup bit_eqb bit_eqb_spec); auto.
+      * intro b. rewrite Hg, (dict_get_update bit_eqb bit_eqb_spec).
+        unfold e. rewrite (int_bits_dict x (fun i => Z.testbit z (Z.of_nat i))).
+        unfold asg_bits. cbn [dict_get].
+        destruct (String.eqb_spec (fst b) x) as [Ex|Ex]; cbn [andb].
+        -- rewrite Ex, Hxm, Hl. cbn [bit_of_val].
+           destruct (snd b <? wnat h)%nat; reflexivity.
+        -- reflexivity.
+Qed.
+
+Definition foverride (f : fasg) (m : fasgn) : fasg :=
+  fun x => match dict_get String.eqb x m with Some v => v | None => f x end.
+
+Lemma asg_bits_encode t m f b d v : wf_tbl t ->
+  tlookup (fst b) t = Some d -> In b (bitnames (fst b) d) ->
+  dict_get String.eqb (fst b) m = Some v -> val_in_range d v = true ->
+  asg_bits t m b = Some (encode t (foverride f m) b).
+Proof.
+  intros Hwf Hl Hb Hm Hr. unfold asg_bits, encode, foverride. rewrite Hm, Hl.
+  apply in_bitnames in Hb. destruct Hb as [_ Hi].
+  destruct d as [|h], v as [bv|z]; cbn in Hr; try discriminate; cbn [bit_of_val].
+  - rewrite Hi. reflexivity.
+  - destruct (Nat.ltb_spec (snd b) (wnat h)); [reflexivity|lia].
+Qed.
+
+(* substitution of representable values = substitution in the set of assignments *)
+Theorem let_values_spec t defs u : wf_tbl t -> uses_only (all_bits t) u ->
+  vals_ok t defs ->
+  exists r, ctx_let_vals t defs u = Some r /\ uses_only (all_bits t) r /\
+    forall f, sem t r f = sem t u (foverride f defs).
+Proof.
+  intros Hwf Hu Hok.
+  destruct (refine_assignment_from_spec t Hwf defs Hok []) as (d & E & _ & Hg).
+  assert (Hsem : forall a b, In b (all_bits t) ->
+     (match dict_get bit_eqb b d with Some v => v | None => a b end) =
+     match asg_bits t defs b with Some v => v | None => a b end).
+  { intros a b _. rewrite Hg. destruct (asg_bits t defs b); reflexivity. }
+  exists (match defs with [] => u | _ => blet_vals d u end).
+  split; [|split].
+  - unfold ctx_let_vals, refine_assignment. rewrite E. destruct defs; reflexivity.
+  - destruct defs; auto. intros a a' Ha. unfold blet_vals. apply Hu.
+    intros b Hb. destruct (dict_get bit_eqb b d); auto.
+  - intro f.
+    assert (G : sem t (blet_vals d u) f = sem t u (foverride f defs)).
+    { unfold sem, blet_vals. apply Hu. intros b Hb. rewrite Hsem by auto.
+      destruct (declared_bit_lookup t b Hwf Hb) as (dx & Hl & Hbn).
+      destruct (dict_get String.eqb (fst b) defs) as [v|] eqn:Em.
+      - destruct Hok as [ND Hok].
+        destruct (Hok (fst b) v) as (d' & Hl' & Hr);
+          [apply (dict_get_in String.eqb string_eqb_spec'); auto|].
+        assert (d' = dx) by congruence. subst d'.
+        rewrite (asg_bits_encode t defs f b dx v); auto.
+      - unfold asg_bits. rewrite Em. apply encode_local.
+        unfold foverride. rewrite Em. reflexivity. }
+    destruct defs; auto.
+Qed.
+
+(* ---- Context.assign_from ----------------------------------------------------------------- *)
+Lemma forallb_ext_in' {A} (f g : A -> bool) l :
+  (forall x, In x l -> f x = g x) -> forallb f l = forallb g l.
+Proof.
+  induction l; cbn; intros H; auto. rewrite H by auto. f_equal. auto.
+Qed.
+
+Lemma val_eqb_spec a b : reflect (a = b) (val_eqb a b).
+Proof.
+  destruct a as [x|x], b as [y|y]; cbn [val_eqb]; try (constructor; congruence).
+  - destruct (Bool.eqb_spec x y); constructor; congruence.
+  - destruct (Z.eqb_spec x y); constructor; congruence.
+Qed.
+
+Definition extends (f : fasg) (m : fasgn) : Prop :=
+  forall x v, In (x, v) m -> f x = v.
+
+Theorem assign_from_spec t m : wf_tbl t -> vals_ok t m ->
+  exists r, ctx_assign_from t m = Some r /\ uses_only (all_bits t) r /\
+    forall f, in_range t f -> (sem t r f = true <-> extends f m).
+Proof.
+  intros Hwf Hok.
+  destruct (refine_assignment_from_spec t Hwf m Hok []) as (d & E & NDd & Hg).
+  specialize (NDd (NoDup_nil _)).
+  exists (bcube d). unfold ctx_assign_from, refine_assignment. rewrite E.
+  split; [reflexivity|].
+  assert (Hkeys : forall b v, In (b, v) d -> In b (all_bits t)).
+  { intros b v Hin.
+    apply (dict_get_nodup_in bit_eqb bit_eqb_spec) in Hin; auto.
+    rewrite Hg in Hin. cbn [dict_get] in Hin. unfold asg_bits in Hin.
+    destruct (dict_get String.eqb (fst b) m) as [w|]; [|discriminate].
+    destruct (tlookup (fst b) t) as [dx|] eqn:Hl; [|discriminate].
+    apply in_all_bits. exists (fst b), dx. split; [apply tlookup_in; auto|].
+    apply in_bitnames. split; auto.
+    destruct dx as [|h], w as [bv|z]; cbn [bit_of_val] in Hin; try discriminate.
+    - destruct (Nat.eqb_spec (snd b) 0); [auto|discriminate].
+    - destruct (Nat.ltb_spec (snd b) (wnat h)); [auto|discriminate]. }
+  split.
+  - intros a a' Ha. unfold bcube. apply forallb_ext_in'.
+    intros [b v] Hin. cbn [fst snd]. rewrite (Ha b); eauto.
+  - intros f Hf. unfold sem, bcube. rewrite forallb_forall.
+    destruct Hok as [NDm Hok]. split.
+    + intros H x v Hin.
+      destruct (Hok x v Hin) as (dx & Hl & Hr).
+      pose proof (dict_get_nodup_in String.eqb string_eqb_spec' x v m NDm Hin) as Hm.
+      assert (Hb : forall i, In (x, i) (bitnames x dx) ->
+                 encode t f (x, i) = encode t (foverride f m) (x, i)).
+      { intros i Hi.
+        pose proof (asg_bits_encode t m f (x, i) dx v Hwf Hl Hi Hm Hr) as Ha.
+        assert (Hd : dict_get bit_eqb (x, i) d = Some (encode t (foverride f m) (x, i))).
+        { rewrite Hg, Ha. reflexivity. }
+        apply (dict_get_in bit_eqb bit_eqb_spec) in Hd.
+        specialize (H _ Hd). cbn [fst snd] in H. apply eqb_prop in H. exact H. }
+      pose proof (Hf x dx (tlookup_in _ _ _ Hl)) as Hfx.
+      assert (Hov : foverride f m x = v) by (unfold foverride; rewrite Hm; reflexivity).
+      destruct dx as [|h].
+      * specialize (Hb 0%nat (or_introl eq_refl)).
+        unfold encode in Hb. cbn [fst snd] in Hb. rewrite Hl, Hov in Hb.
+        destruct (f x), v; cbn in Hfx, Hr; try discriminate. congruence.
+      * destruct (f x) as [|zf] eqn:Efx, v as [|z]; cbn in Hfx, Hr; try discriminate.
+        f_equal. destruct Hwf as [_ Hwfh].
+        apply (encode_val_inj h); auto; [eapply Hwfh; apply tlookup_in; eauto|].
+        rewrite <- (encode_bitnames t f x h zf) by auto.
+        rewrite <- (encode_bitnames t (foverride f m) x h z) by auto.
+        apply map_ext_in. intros [y i] Hi.
+        pose proof Hi as Hi'. apply in_bitnames in Hi'. destruct Hi' as [Ey _].
+        cbn [fst] in Ey. subst y. apply Hb. auto.
+    + intros Hext [b v] Hin. cbn [fst snd].
+      apply (dict_get_nodup_in bit_eqb bit_eqb_spec) in Hin; auto.
+      rewrite Hg in Hin. cbn [dict_get] in Hin.
+      destruct (asg_bits t m b) as [v'|] eqn:Ea; [|discriminate].
+      inversion Hin; subst v'. clear Hin.
+      unfold asg_bits in Ea.
+      destruct (dict_get String.eqb (fst b) m) as [w|] eqn:Em; [|discriminate].
+      destruct (tlookup (fst b) t) as [dx|] eqn:Hl; [|discriminate].
+      apply (dict_get_in String.eqb string_eqb_spec') in Em.
+      pose proof (Hext _ _ Em) as Hfx.
+      unfold encode. rewrite Hl, Hfx.
+      destruct dx as [|h], w as [bv|z]; cbn [bit_of_val] in Ea; try discriminate.
+      * destruct (Nat.eqb (snd b) 0); inversion Ea. apply eqb_reflx.
+      * destruct (snd b <? wnat h)%nat; inversion Ea. apply eqb_reflx.
+Qed.
+
+(* ---- fol._refine_renaming / Context.let with variables ------------------------------------ *)
+Definition declared_idx (d : vdecl) (i : nat) : bool :=
+  match d with DBool => Nat.eqb i 0 | DInt h => (i <? wnat h)%nat end.
+
+Lemma declared_idx_spec x d i : declared_idx d i = true <-> In (x, i) (bitnames x d).
+Proof.
+  rewrite in_bitnames. cbn [fst snd]. destruct d; cbn [declared_idx].
+  - rewrite Nat.eqb_eq. tauto.
+  - rewrite Nat.ltb_lt. tauto.
+Qed.
+
+(* the bit-level meaning of a renaming of variables *)
+Definition ren_bits (t : tbl) (ren : list (ident * ident)) (b : bit) : option bit :=
+  match dict_get String.eqb (fst b) ren, tlookup (fst b) t with
+  | Some y, Some d => if declared_idx d (snd b) then Some (y, snd b) else None
+  | _, _ => None
+  end.
+
+(* keys distinct (a dict); old and new have the same declaration; an integer
+   is not renamed to itself (the code's "no overlap" assertion) *)
+Definition ren_ok (t : tbl) (ren : list (ident * ident)) : Prop :=
+  NoDup (map fst ren) /\
+  forall x y, In (x, y) ren ->
+    exists d, tlookup x t = Some d /\ tlookup y t = Some d /\
+              match d with DInt _ => x <> y | DBool => True end.
+
+Lemma combine_map_map {A B C} (f : A -> B) (g : A -> C) l :
+  combine (map f l) (map g l) = map (fun i => (f i, g i)) l.
+Proof. induction l; cbn; congruence. Qed.
+
+Lemma refine_renaming_from_spec t : forall ren, ren_ok t ren ->
+  forall acc, exists r, refine_renaming_from t ren acc = Some r /\
+    forall b, dict_get bit_eqb b r =
+              match ren_bits t ren b with
+              | Some b' => Some b'
+              | None => dict_get bit_eqb b acc
+              end.
+Proof.
+  induction ren as [|[x y] ren IH]; intros [ND Hok] acc.
+  - exists acc. split; [reflexivity|]. auto.
+  - inversion ND as [|? ? Hx ND']; subst.
+    assert (Hok' : ren_ok t ren) by (split; auto; intros; apply Hok; right; auto).
+    destruct (Hok x y (or_introl eq_refl)) as (d & Hlx & Hly & Hne).
+    assert (Hxm : dict_get String.eqb x ren = None)
+      by (apply (dict_get_none String.eqb string_eqb_spec'); auto).
+    cbn [refine_renaming_from]. rewrite Hlx, Hly. destruct d as [|h].
+    + destruct (IH Hok' (dict_set bit_eqb (x, 0%nat) (y, 0%nat) acc)) as (r & E & Hg).
+      exists r. split; auto.
+      intro b. rewrite Hg, (dict_get_set bit_eqb bit_eqb_spec).
+      unfold ren_bits. cbn [dict_get].
+      destruct (String.eqb_spec (fst b) x) as [Ex|Ex].
+      * rewrite Ex, Hxm, Hlx. cbn [declared_idx].
+        destruct b as [z i]. cbn [fst snd] in *. subst z.
+        destruct (Nat.eqb_spec i 0).
+        -- subst. rewrite bit_eqb_refl. reflexivity.
+        -- destruct (bit_eqb_spec (x, i) (x, 0%nat)) as [E0|E0]; [inversion E0; lia|].
+           reflexivity.
+      * destruct (bit_eqb_spec b (x, 0%nat)) as [E0|E0];
+          [subst b; cbn in Ex; congruence|].
+        reflexivity.
+    + unfold dom_eqb. rewrite !Z.eqb_refl. cbn [andb negb].
+      cbn [bitnames]. rewrite !map_length, !seq_length, Nat.eqb_refl. cbn [negb].
+      assert (Hex : existsb (fun b => mem bit_eqb b (map (fun i => (y, i)) (seq 0 (wnat h))))
+                      (map (fun i => (x, i)) (seq 0 (wnat h))) = false).
+      { apply not_true_is_false. intro Ht. apply existsb_exists in Ht.
+        destruct Ht as (b & Hb1 & Hb2). apply (mem_spec bit_eqb bit_eqb_spec) in Hb2.
+        apply in_map_iff in Hb1. destruct Hb1 as (i & <- & _).
+        apply in_map_iff in Hb2. destruct Hb2 as (j & Ej & _). inversion Ej. congruence. }
+      rewrite Hex. rewrite combine_map_map.
+      set (e := map (fun i => ((x, i), (y, i))) (seq 0 (wnat h))).
+      destruct (IH Hok' (dict_update bit_eqb acc e)) as (r & E & Hg).
+      exists r. split; auto.
+      intro b. rewrite Hg, (dict_get_update bit_eqb bit_eqb_spec).
+      unfold e. rewrite (int_bits_dict x (fun i => (y, i))).
+      unfold ren_bits. cbn [dict_get].
+      destruct (String.eqb_spec (fst b) x) as [Ex|Ex]; cbn [andb].
+      * rewrite Ex, Hxm, Hlx. cbn [declared_idx].
+        destruct (snd b <? wnat h)%nat; reflexivity.
+      * reflexivity.
+Qed.
+
+Definition frename (f : fasg) (ren : list (ident * ident)) : fasg :=
+  fun x => match dict_get String.eqb x ren with Some y => f y | None => f x end.
+
+Lemma encode_same_decl t f g x y i d :
+  tlookup x t = Some d -> tlookup y t = Some d -> g x = f y ->
+  encode t g (x, i) = encode t f (y, i).
+Proof.
+  intros Hx Hy E. unfold encode. cbn [fst snd]. rewrite Hx, Hy, E. reflexivity.
+Qed.
+
+(* bit-level statement: the renamed BDD at a equals u at the renamed assignment *)
+Theorem let_vars_bits t ren u : wf_tbl t -> uses_only (all_bits t) u -> ren_ok t ren ->
+  exists r, ctx_let_vars t ren u = Some r /\ uses_only (all_bits t) r /\
+    forall a, r a = u (fun b => match ren_bits t ren b with
+                                | Some b' => a b'
+                                | None => a b
+                                end).
+Proof.
+  intros Hwf Hu Hok.
+  destruct (refine_renaming_from_spec t ren Hok []) as (d & E & Hg).
+  assert (Himg : forall b b', ren_bits t ren b = Some b' -> In b' (all_bits t)).
+  { intros b b' Hb. unfold ren_bits in Hb.
+    destruct (dict_get String.eqb (fst b) ren) as [y|] eqn:Em; [|discriminate].
+    destruct (tlookup (fst b) t) as [dx|] eqn:Hl; [|discriminate].
+    destruct (declared_idx dx (snd b)) eqn:Ed; [|discriminate]. inversion Hb; subst.
+    destruct Hok as [_ Hok].
+    destruct (Hok (fst b) y) as (d' & Hl1 & Hl2 & _);
+      [apply (dict_get_in String.eqb string_eqb_spec'); auto|].
+    assert (d' = dx) by congruence. subst d'.
+    apply in_all_bits. exists y, dx. split; [apply tlookup_in; auto|].
+    apply declared_idx_spec. auto. }
+  exists (match ren with [] => u | _ => blet_ren d u end).
+  split; [|split].
+  - unfold ctx_let_vars, refine_renaming. rewrite E. destruct ren; reflexivity.
+  - destruct ren; auto. intros a a' Ha. unfold blet_ren. apply Hu.
+    intros b Hb. rewrite Hg. cbn [dict_get].
+    destruct (ren_bits t (p :: ren) b) eqn:Er; auto. apply Ha. eapply Himg; eauto.
+  - intro a.
+    assert (G : blet_ren d u a = u (fun b => match ren_bits t ren b with
+                                            | Some b' => a b'
+                                            | None => a b
+                                            end)).
+    { unfold blet_ren. apply Hu. intros b _. rewrite Hg. cbn [dict_get].
+      destruct (ren_bits t ren b); reflexivity. }
+    destruct ren; auto.
+Qed.
+
+(* substitution of same-typed variables = renaming in the set of assignments *)
+Theorem rename_spec t ren u : wf_tbl t -> uses_only (all_bits t) u -> ren_ok t ren ->
+  exists r, ctx_let_vars t ren u = Some r /\ uses_only (all_bits t) r /\
+    forall f, sem t r f = sem t u (frename f ren).
+Proof.
+  intros Hwf Hu Hok.
+  destruct (let_vars_bits t ren u Hwf Hu Hok) as (r & E & Hur & Hr).
+  exists r. split; auto. split; auto.
+  intro f. unfold sem. rewrite Hr. apply Hu. intros b Hb.
+  destruct (declared_bit_lookup t b Hwf Hb) as (dx & Hl & Hbn).
+  unfold ren_bits. rewrite Hl.
+  destruct (dict_get String.eqb (fst b) ren) as [y|] eqn:Em.
+  - destruct b as [x i]. cbn [fst snd] in *.
+    rewrite (proj2 (declared_idx_spec x dx i) Hbn).
+    destruct Hok as [_ Hok].
+    destruct (Hok x y) as (d' & Hl1 & Hl2 & _);
+      [apply (dict_get_in String.eqb string_eqb_spec'); auto|].
+    symmetry. apply (encode_same_decl t f (frename f ren) x y i d'); auto.
+    unfold frename. rewrite Em. reflexivity.
+  - apply encode_local. unfold frename. rewrite Em. reflexivity.
+Qed.
+
+(* ---- bitvector.map_bits_to_integers / Context.support --------------------------------------- *)
+Lemma map_bits_to_integers_inv t : forall acc,
+  (forall b x, dict_get bit_eqb b acc = Some x -> x = fst b) ->
+  let res := fold_left (fun acc xd =>
+      dict_update bit_eqb acc
+        (map (fun b => (b, fst xd)) (bitnames (fst xd) (snd xd)))) t acc in
+  (forall b x, dict_get bit_eqb b res = Some x -> x = fst b) /\
+  (forall b, In b (map fst res) <-> In b (map fst acc) \/ In b (all_bits t)).
+Proof.
+  induction t as [|[y d] t IH]; intros acc Hacc; cbn [fold_left].
+  - split; auto. intro b. cbn. tauto.
+  - cbn [fst snd].
+    set (e := map (fun b => (b, y)) (bitnames y d)).
+    assert (Hacc' : forall b x, dict_get bit_eqb b (dict_update bit_eqb acc e) = Some x ->
+                      x = fst b).
+    { intros b x. rewrite (dict_get_update bit_eqb bit_eqb_spec).
+      destruct (dict_get bit_eqb b (rev e)) as [x'|] eqn:Er; [|apply Hacc].
+      intro E. inversion E; subst x'.
+      apply (dict_get_in bit_eqb bit_eqb_spec) in Er. apply in_rev in Er.
+      unfold e in Er. apply in_map_iff in Er. destruct Er as (b' & Eb & Hb').
+      inversion Eb; subst. apply in_bitnames in Hb'. symmetry. tauto. }
+    destruct (IH _ Hacc') as [H1 H2]. split; auto.
+    intro b. rewrite H2, (dict_update_keys bit_eqb bit_eqb_spec).
+    unfold e. rewrite map_map. cbn [fst]. rewrite map_id.
+    cbn [all_bits flat_map fst snd]. rewrite in_app_iff. fold (all_bits t). tauto.
+Qed.
+
+Lemma map_bits_to_integers_spec t b : In b (all_bits t) ->
+  dict_get bit_eqb b (map_bits_to_integers t) = Some (fst b).
+Proof.
+  intro Hb. unfold map_bits_to_integers.
+  destruct (map_bits_to_integers_inv t []) as [H1 H2]; [intros ? ? E; discriminate|].
+  cbv zeta in H1, H2.
+  destruct (dict_get bit_eqb b _) as [x|] eqn:E.
+  - f_equal. auto.
+  - apply (dict_get_none bit_eqb bit_eqb_spec) in E. exfalso. apply E.
+    apply H2. auto.
+Qed.
+
+Lemma map_opt_some {A B} (f : A -> option B) (g : A -> B) l :
+  (forall x, In x l -> f x = Some (g x)) -> map_opt f l = Some (map g l).
+Proof.
+  induction l; intro H; cbn [map_opt map]; auto.
+  rewrite H by (left; auto). rewrite IHl by (intros; apply H; right; auto).
+  reflexivity.
+Qed.
+
+Lemma ctx_support_bits t u :
+  exists s, ctx_support t u = Some s /\ NoDup s /\
+    forall x, In x s <-> exists b, In b (bsupport (all_bits t) u) /\ fst b = x.
+Proof.
+  unfold ctx_support. cbv zeta.
+  assert (Em : map_opt (fun b => dict_get bit_eqb b (map_bits_to_integers t))
+                 (bsupport (all_bits t) u) = Some (map fst (bsupport (all_bits t) u))).
+  { apply map_opt_some.
+    intros b Hb. apply map_bits_to_integers_spec. eapply bsupport_incl; eauto. }
+  rewrite Em.
+  eexists. split; [reflexivity|]. split.
+  - apply (set_union_nodup String.eqb string_eqb_spec'). constructor.
+  - intro x. rewrite (set_union_in String.eqb string_eqb_spec'), in_map_iff.
+    cbn [In]. split.
+    + intros [[]|(b & E & Hb)]. eauto.
+    + intros (b & Hb & E). right. eauto.
+Qed.
+
+(* a variable is in the reported support iff the set of assignments denoted by
+   the BDD depends on that variable (over the representable values) *)
+Theorem support_spec t u : wf_tbl t -> uses_only (all_bits t) u ->
+  exists s, ctx_support t u = Some s /\ NoDup s /\
+    forall x, In x s <->
+      exists d f v, In (x, d) t /\ in_range t f /\ val_in_range d v = true /\
+                    sem t u f <> sem t u (fupd f x v).
+Proof.
+  intros Hwf Hu. destruct (ctx_support_bits t u) as (s & E & ND & Hs).
+  exists s. split; auto. split; auto. intro x. rewrite Hs. split.
+  - intros (b & Hb & Ex). apply bsupport_spec in Hb; auto. destruct Hb as [Hdecl [a Ha]].
+    destruct (declared_bit_lookup t b Hwf Hdecl) as (d & Hl & Hbn). rewrite Ex in Hl.
+    exists d, (decode t (upd a b true)), (decode t (upd a b false) x).
+    split; [apply tlookup_in; auto|]. split; [apply decode_in_range; auto|].
+    split; [apply decode_in_range; auto; apply tlookup_in; auto|].
+    rewrite sem_decode by auto.
+    assert (G : sem t u (fupd (decode t (upd a b true)) x (decode t (upd a b false) x))
+                = u (upd a b false)).
+    { unfold sem. apply Hu. intros c Hc.
+      destruct (String.eqb_spec (fst c) x) as [Ec|Ec].
+      - rewrite (encode_local t _ (decode t (upd a b false)) c).
+        + apply encode_decode_b; auto.
+        + unfold fupd. rewrite Ec, String.eqb_refl. reflexivity.
+      - rewrite (encode_local t _ (decode t (upd a b true)) c).
+        + rewrite encode_decode_b by auto.
+          assert (c <> b) by (intro; subst; auto).
+          rewrite !upd_other by auto. reflexivity.
+        + unfold fupd. destruct (String.eqb_spec (fst c) x); [contradiction|reflexivity]. }
+    rewrite G. exact Ha.
+  - intros (d & f & v & Hin & Hf & Hv & Hne).
+    destruct (existsb (fun b => String.eqb (fst b) x) (bsupport (all_bits t) u)) eqn:Ex.
+    + apply existsb_exists in Ex. destruct Ex as (b & Hb & Eb).
+      apply String.eqb_eq in Eb. eauto.
+    + exfalso. apply Hne. unfold sem.
+      apply (uses_only_support (all_bits t)); auto.
+      intros b Hb. apply encode_local. unfold fupd.
+      destruct (String.eqb_spec (fst b) x) as [Eb|Eb]; auto.
+      assert (existsb (fun b => String.eqb (fst b) x) (bsupport (all_bits t) u) = true).
+      { apply existsb_exists. exists b. split; auto. apply String.eqb_eq. auto. }
+      congruence.
+Qed.
+
+(* ---- Context.apply ----------------------------------------------------------------------- *)
+Theorem apply_spec t op u v w r : bapply op u v w = Some r ->
+  forall f, sem t r f =
+    match op, v, w with
+    | OpNot, _, _ => negb (sem t u f)
+    | OpAnd, Some v, _ => sem t u f && sem t v f
+    | OpOr, Some v, _ => sem t u f || sem t v f
+    | OpXor, Some v, _ => xorb (sem t u f) (sem t v f)
+    | OpImplies, Some v, _ => implb (sem t u f) (sem t v f)
+    | OpEquiv, Some v, _ => Bool.eqb (sem t u f) (sem t v f)
+    | OpDiff, Some v, _ => sem t u f && negb (sem t v f)
+    | OpIte, Some v, Some w => if sem t u f then sem t v f else sem t w f
+    | _, _, _ => false
+    end.
+Proof.
+  intros E f. destruct op, v as [v|], w as [w|]; cbn in E; inversion E; reflexivity.
+Qed.
+
+(* ==== enumeration._bitfields_to_int_iter / Context.pick_iter ================================ *)
+
+Lemma nodup_app {A} (l1 l2 : list A) :
+  NoDup l1 -> NoDup l2 -> (forall x, In x l1 -> ~ In x l2) -> NoDup (l1 ++ l2).
+Proof.
+  induction l1 as [|a l1 IH]; intros N1 N2 Hd; cbn; auto.
+  inversion N1; subst. constructor.
+  - rewrite in_app_iff. intros [H|H]; [auto|]. apply (Hd a); [left; auto|auto].
+  - apply IH; auto. intros x Hx. apply Hd. right; auto.
+Qed.
+
+(* ---- _take_product_iter ------------------------------------------------------------------- *)
+Inductive prod_rel (model : fasgn) : list (ident * list Z) -> fasgn -> Prop :=
+| PR_nil : prod_rel model [] model
+| PR_cons x vals r m v : prod_rel model r m -> In v vals ->
+    prod_rel model ((x, vals) :: r) (m ++ [(x, VZ v)]).
+
+Lemma take_product_rel sets model d :
+  In d (take_product sets model) <-> prod_rel model sets d.
+Proof.
+  revert d; induction sets as [|[x vals] r IH]; intro d; cbn [take_product].
+  - split.
+    + intros [<-|[]]. constructor.
+    + intro H. inversion H. left; auto.
+  - rewrite in_flat_map. split.
+    + intros (m & Hm & Hd). apply in_map_iff in Hd. destruct Hd as (v & <- & Hv).
+      constructor; auto. apply IH; auto.
+    + intro H. inversion H; subst. exists m. split; [apply IH; auto|].
+      apply in_map_iff. eauto.
+Qed.
+
+Lemma prod_rel_in model sets d : prod_rel model sets d ->
+  forall y w, In (y, w) d <->
+    In (y, w) model \/ exists vals v, In (y, vals) sets /\ w = VZ v /\ In (y, VZ v) d /\ In v vals.
+Proof.
+  induction 1 as [|x vals r m v Hr IH Hv]; intros y w.
+  - split; [auto|]. intros [H|(vals & v & [] & _)]; auto.
+  - rewrite in_app_iff, IH. cbn [In]. split.
+    + intros [[H|(vals' & v' & H1 & H2 & H3 & H4)]|[E|[]]].
+      * auto.
+      * right. exists vals', v'. repeat split; auto. apply in_app_iff; auto.
+      * inversion E; subst. right. exists vals, v. repeat split; auto.
+        apply in_app_iff. right. left. auto.
+    + intros [H|(vals' & v' & [E|H1] & H2 & H3 & H4)].
+      * auto.
+      * inversion E; subst. apply in_app_iff in H3. destruct H3 as [H3|[E3|[]]].
+        -- left. right. exists vals', v'. repeat split; auto.
+Abort.
+
+Lemma prod_rel_extends model sets f :
+  (exists d, prod_rel model sets d /\ extends f d) <->
+  extends f model /\ forall x vals, In (x, vals) sets -> exists v, In v vals /\ f x = VZ v.
+Proof.
+  induction sets as [|[x vals] r IH].
+  - split.
+    + intros (d & H & He). inversion H; subst. split; auto. intros ? ? [].
+    + intros [He _]. exists model. split; auto. constructor.
+  - split.
+    + intros (d & H & He). inversion H; subst.
+      assert (He' : extends f m).
+      { intros y w Hin. apply He. apply in_app_iff. auto. }
+      destruct (proj1 IH (ex_intro _ m (conj H3 He'))) as [Hm Hr].
+      split; auto. intros y vals' [E|Hin].
+      * inversion E; subst. exists v. split; auto. apply He.
+        apply in_app_iff. right. left. auto.
+      * apply Hr; auto.
+    + intros [Hm Hs].
+      destruct (proj2 IH) as (m & Hrel & Hext).
+      { split; auto. intros; apply Hs; right; auto. }
+      destruct (Hs x vals (or_introl eq_refl)) as (v & Hv & Hfx).
+      exists (m ++ [(x, VZ v)]). split; [constructor; auto|].
+      intros y w Hin. apply in_app_iff in Hin. destruct Hin as [Hin|[E|[]]].
+      * apply Hext; auto.
+      * inversion E; subst. auto.
+Qed.
+
+Lemma prod_rel_unique model sets f d1 d2 :
+  prod_rel model sets d1 -> prod_rel model sets d2 ->
+  extends f d1 -> extends f d2 -> d1 = d2.
+Proof.
+  intro H1. revert d2. induction H1 as [|x vals r m v Hr IH Hv]; intros d2 H2 E1 E2.
+  - inversion H2. reflexivity.
+  - inversion H2; subst.
+    assert (f x = VZ v) by (apply E1; apply in_app_iff; right; left; auto).
+    assert (f x = VZ v0) by (apply E2; apply in_app_iff; right; left; auto).
+    assert (v = v0) by congruence. subst v0. f_equal.
+    apply IH; auto.
+    + intros y w Hin. apply E1. apply in_app_iff. auto.
+    + intros y w Hin. apply E2. apply in_app_iff. auto.
+Qed.
+
+Lemma take_product_nodup sets model :
+  (forall x vals, In (x, vals) sets -> NoDup vals) -> NoDup (take_product sets model).
+Proof.
+  induction sets as [|[x vals] r IH]; intro H; cbn [take_product].
+  - constructor; [intros []|constructor].
+  - assert (Nv : NoDup vals) by (apply (H x); left; auto).
+    assert (Nr : NoDup (take_product r model)) by (apply IH; intros; eapply H; right; eauto).
+    revert Nr. generalize (take_product r model) as L.
+    induction L as [|m L IHL]; intro Nr; cbn [flat_map]; [constructor|].
+    inversion Nr; subst. apply nodup_app.
+    + apply FinFun.Injective_map_NoDup; auto.
+      intros v v' E. apply app_inj_tail in E. destruct E as [_ E]. congruence.
+    + auto.
+    + intros d Hd Hd'. apply in_map_iff in Hd. destruct Hd as (v & <- & _).
+      apply in_flat_map in Hd'. destruct Hd' as (m' & Hm' & Hd').
+      apply in_map_iff in Hd'. destruct Hd' as (v' & E & _).
+      apply app_inj_tail in E. destruct E as [E _]. subst. auto.
+Qed.
+
+Lemma prod_rel_keys model sets d : prod_rel model sets d ->
+  forall y, In y (map fst d) <-> In y (map fst model) \/ In y (map fst sets).
+Proof.
+  induction 1 as [|x vals r m v Hr IH Hv]; intro y.
+  - cbn. tauto.
+  - rewrite map_app, in_app_iff, IH. cbn. tauto.
+Qed.
+
+Lemma prod_rel_vals model sets d : prod_rel model sets d ->
+  forall y w, In (y, w) d ->
+    In (y, w) model \/ exists vals v, In (y, vals) sets /\ w = VZ v /\ In v vals.
+Proof.
+  induction 1 as [|x vals r m v Hr IH Hv]; intros y w Hin.
+  - auto.
+  - apply in_app_iff in Hin. destruct Hin as [Hin|[E|[]]].
+    + destruct (IH y w Hin) as [H|(vals' & v' & H1 & H2 & H3)]; auto.
+      right. exists vals', v'. cbn. auto.
+    + inversion E; subst. right. exists vals, v. cbn. auto.
+Qed.
